@@ -9,6 +9,7 @@ import (
 	"crypto/sha512"
 	"crypto/subtle"
 	"encoding/json"
+	"errors"
 	"fmt"
 	"hash"
 	"maps"
@@ -284,6 +285,10 @@ func (t *RaftTransaction) Put(ctx context.Context, entry *physical.Entry) error 
 	// Check if we exceed the size of a regular put entry.
 	valueSize := len(entry.Value)
 	keySize := len(entry.Key)
+	if keySize == 0 {
+		// See note in RaftBackend.Put(...).
+		return errors.New("put failed due to key being empty")
+	}
 	if keySize > bolt.MaxKeySize {
 		return fmt.Errorf("%s, max key size for integrated storage is %d", physical.ErrKeyTooLarge, bolt.MaxKeySize)
 	}
